@@ -27,11 +27,16 @@ CONSTANTS MaxOps, ExemptOnlyTopLevel, ResetOnRedefinition,
           MissPropagates,    \* TRUE: a caller of an uncacheable function is uncacheable too (FALSE on the pinned tree:
                              \*       'g=func(){x}; f=func(){g()}' cached f)
           ZeroSignDistinct,  \* TRUE: a -0.0 argument is never used as a cache key (FALSE: f(0.0) and f(-0.0) shared an entry)
+          ImpureErrorIsMiss, \* TRUE: a DontCache extension marks its callers uncacheable whether it succeeds or fails
+                             \*       (FALSE, a seeded change: the mark is skipped when the extension returns an error)
+          FuncArgsUnhashable,\* TRUE: a call with a function-valued argument is never stored (FALSE, a seeded change: functions
+                             \*       are keyed by their text, so closures of one factory with different captures share an entry)
           EmitOn
 
 \* "wraplower" calls f_lower (which reads the global g); "inv" is x => 1/x called with 0.0 (a = 1) or -0.0 (a = 2)
 \* "catchlower" calls a function that reads g and FAILS when g = 0, and absorbs the error with catch()
-Kinds == {"pure", "lower", "upper", "callee", "print", "error", "impure", "wraplower", "inv", "catchlower"}
+\* "catchgate" calls the impure extension vgate(), which FAILS on every odd call of the run, and absorbs the error with catch()
+Kinds == {"pure", "lower", "upper", "callee", "print", "error", "impure", "wraplower", "inv", "catchlower", "catchgate"}
 Caps  == {"lower", "upper", "func"}
 Args  == {1, 2}
 
@@ -58,6 +63,7 @@ Truth(kind, a) ==
     [] kind = "impure" -> <<a + ticks + 1, FALSE>>
     [] kind = "wraplower" -> <<a + g, FALSE>>
     [] kind = "catchlower" -> <<IF g = 0 THEN -1 ELSE a + g, FALSE>>
+    [] kind = "catchgate" -> <<IF (ticks + 1) % 2 = 1 THEN -1 ELSE ticks + 1, FALSE>>
     [] kind = "inv"    -> <<IF a = 1 THEN 1000 ELSE -1000, FALSE>>   \* +Inf / -Inf
 
 \* does the implementation store the result of this call?
@@ -69,6 +75,7 @@ Stored(kind) ==
     [] kind = "error"  -> FALSE          \* errors are never stored
     [] kind = "impure" -> FALSE          \* DontCache extension
     [] kind \in {"wraplower", "catchlower"} -> ~MissPropagates   \* also when the callee ended in an error
+    [] kind = "catchgate" -> ~ImpureErrorIsMiss /\ (ticks + 1) % 2 = 1   \* stored only by the deviation, when vgate failed
     [] kind = "inv"    -> TRUE
 
 \* 0.0 and -0.0 are equal as cache keys (Go map key equality)
@@ -86,7 +93,7 @@ CallF(kind, a) ==
      IN /\ good' = (good /\ obs = t)
         /\ cache' = IF hit = {} /\ Stored(kind) /\ ~(kind = "inv" /\ a = 2 /\ ZeroSignDistinct)
                     THEN cache \cup {[fn |-> kind, arg |-> a, val |-> t[1], out |-> t[2]]} ELSE cache
-  /\ ticks' = IF kind = "impure" THEN ticks + 1 ELSE ticks
+  /\ ticks' = IF kind = "impure" \/ (kind = "catchgate" /\ Lookup(kind, a) = {}) THEN ticks + 1 ELSE ticks   \* a hit does not run vgate()
   /\ UNCHANGED <<g, cst, hver>>
   /\ Log([op |-> "call", kind |-> kind, a |-> a])
 
@@ -105,6 +112,18 @@ CallClosure(cap, v, a) ==
   /\ UNCHANGED <<g, cst, hver, ticks>>
   /\ Log([op |-> "closure", cap |-> cap, v |-> v, a |-> a])
 
+(* box(mk(v))[0](0): a function that only STORES its function-valued argument; the stored closure is called afterwards.
+   Function values are not hashable, so the call is never stored - unless they are keyed by their text. *)
+CallBox(v) ==
+  /\ Len(hist) < MaxOps
+  /\ LET hit == IF FuncArgsUnhashable THEN {} ELSE {e \in cache : e.fn = "box"}
+         t   == <<v, FALSE>>
+         obs == IF hit # {} THEN LET e == CHOOSE e \in hit : TRUE IN <<e.val, e.out>> ELSE t
+     IN /\ good' = (good /\ obs = t)
+        /\ cache' = IF hit = {} /\ ~FuncArgsUnhashable THEN cache \cup {[fn |-> "box", arg |-> 0, val |-> v, out |-> FALSE]} ELSE cache
+  /\ UNCHANGED <<g, cst, hver, ticks>>
+  /\ Log([op |-> "box", v |-> v])
+
 Dropped == IF ResetOnRedefinition THEN {} ELSE cache
 
 MutateG   == Len(hist) < MaxOps /\ g' = 1 - g /\ UNCHANGED <<cst, hver, ticks, cache, good>> /\ Log([op |-> "mutate"])
@@ -118,6 +137,7 @@ Emit == EmitOn => EmitLine(ToJson([h |-> hist']))
 Next ==
   /\ \/ \E k \in Kinds, a \in Args : CallF(k, a)
      \/ \E c \in Caps, v \in {1, 2}, a \in {1} : CallClosure(c, v, a)
+     \/ \E v \in {1, 2} : CallBox(v)
      \/ MutateG \/ RedefH \/ RedefHInside \/ RedefConst
   /\ (Len(hist') = MaxOps) => Emit
 
@@ -126,5 +146,5 @@ Spec == Init /\ [][Next]_vars
 ObsCorrect == good
 \* a stored entry is what re-running the call now would produce (the stronger, state-based form)
 HitSound == \A e \in cache :
-              IF e.fn \in Kinds \ {"inv"} THEN <<e.val, e.out>> = Truth(e.fn, e.arg) ELSE TRUE
+              IF e.fn \in Kinds \ {"inv", "catchgate"} THEN <<e.val, e.out>> = Truth(e.fn, e.arg) ELSE TRUE
 =============================================================================
